@@ -168,8 +168,9 @@ type Reader struct {
 	n     int
 	err   error
 	Got   []byte
-	Err   error // first error Read returned
-	ErrN  int   // bytes returned together with that error
+	Err   error   // the error the last Drain stopped at
+	Errs  []error // earlier errors (see Resume)
+	ErrN  int     // bytes returned together with that error
 	Panic interface{}
 	Stuck bool // the call neither finished nor blocked in the underlying Read
 	Reads int
@@ -211,6 +212,15 @@ func (r *Reader) Drain(next func() int) (blocked bool) {
 			r.ErrN = r.n
 			return false
 		}
+	}
+}
+
+// Resume forgets the error the last Drain stopped at, so that a caller that keeps reading after
+// an error can be simulated. The errors seen so far are kept in Errs.
+func (r *Reader) Resume() {
+	if r.Err != nil {
+		r.Errs = append(r.Errs, r.Err)
+		r.Err = nil
 	}
 }
 
@@ -513,6 +523,35 @@ func (p *Pair) Close() {
 	if p.dir != "" {
 		os.RemoveAll(p.dir)
 	}
+}
+
+// ForgeFrame seals an arbitrary packet plaintext as frame number idx (0-based) of the direction
+// with the real framing.Encoder and the direction key: what a *peer* (not an on-path attacker)
+// could send. The encoder is synchronised by encoding idx dummy frames first.
+func ForgeFrame(key []byte, idx int, pkt []byte) ([]byte, error) {
+	enc := framing.NewEncoder(key)
+	var buf [framing.MaximumSegmentLength]byte
+	for i := 0; i < idx; i++ {
+		if _, err := enc.Encode(buf[:], nil); err != nil {
+			return nil, err
+		}
+	}
+	n, err := enc.Encode(buf[:], pkt)
+	if err != nil {
+		return nil, err
+	}
+	return append([]byte(nil), buf[:n]...), nil
+}
+
+// DecoderState returns the real decoder's nonce counter and nextLengthInvalid flag of the
+// receiver of direction dir (hook).
+func (p *Pair) DecoderState(dir int) (counter uint64, nextLength int, invalid bool, ok bool) {
+	_, dec, ok := obfs4.VerifConnCrypto(p.EP[receiver(dir)])
+	if !ok || dec == nil {
+		return 0, 0, false, false
+	}
+	_, _, c, nl, inv := dec.VerifState()
+	return c, int(nl), inv, true
 }
 
 // Shadow is a real framing.Decoder run by the harness over an honest wire stream with the
